@@ -65,7 +65,10 @@ class PaneBase:
     ):
         old_params = getattr(cls, '__parameters__', ())
         super().__init_subclass__(*args, **kwargs)
-        setattr(cls, '__parameters__', old_params + getattr(cls, '__parameters__', ()))
+        # parameters listed in an explicit Generic[...] come first (as for any generic class);
+        # inherited ones that are still free follow, each at most once
+        new_params = getattr(cls, '__parameters__', ())
+        setattr(cls, '__parameters__', new_params + tuple(p for p in old_params if p not in new_params))
 
         if rename is not None:
             if in_rename is not None or out_rename is not None:
